@@ -593,3 +593,32 @@ func H_C04_two() {
 	vAssert(sink() == want, "each of two responses from one request carries its own values")
 	vReach("written")
 }
+
+func init() { vReg("H_C04_latecontrol", H_C04_latecontrol) }
+
+// A handler attaches a paging control to the response first and fills in its cookie
+// afterwards (before Write): the client receives the control as it is when the
+// response is written.
+func H_C04_latecontrol() {
+	r, w, sink, id := vRespSetup()
+	size := vU32("size")
+	cookie := vS("cookie")
+	done := vBool("searchDone")
+	p, err := NewControlPaging(size)
+	vAssume(err == nil)
+	c := ctlSpec{kind: ckPaging, oid: ControlTypePaging, size: size, cookie: cookie}
+	if done {
+		resp := r.NewSearchDoneResponse()
+		resp.SetControls(p)
+		p.SetCookie([]byte(cookie))
+		vAssert(w.Write(resp) == nil, "write ok")
+		vAssert(sink() == rResult(id, ApplicationSearchResultDone, 0, "", "", []ctlSpec{c}), "search done carries the control as it is at Write")
+	} else {
+		resp := r.NewBindResponse()
+		resp.SetControls(p)
+		p.SetCookie([]byte(cookie))
+		vAssert(w.Write(resp) == nil, "write ok")
+		vAssert(sink() == rResult(id, ApplicationBindResponse, 0, "", "", []ctlSpec{c}), "bind response carries the control as it is at Write")
+	}
+	vReach("written")
+}
